@@ -52,10 +52,18 @@ def evIndex (tbl : List (String × String)) (kind name : String) : List (String 
 
 def sortStrs (xs : List String) : List String := xs.toArray.qsort (· < ·) |>.toList
 
+/-- `observed X` is compared as present / absent per segment, not counted: when a node that callers were blocked on
+is reached, the released callers race to the consumers behind it, so HOW MANY non-matching events a listener behind
+it observes before the matching one disarms it depends on the schedule (whether it fires does not). In every other
+segment at most one event reaches a node, so nothing is lost there. -/
+def dedupObserved : List String → List String
+  | a :: b :: rest => if a == b && a.startsWith "observed " then dedupObserved (b :: rest) else a :: dedupObserved (b :: rest)
+  | xs => xs
+
 /-- canonical multiset of what the implementation showed in one segment -/
 def implCanon (p : Proc) (obs : List String) : List String :=
   let isCatch (n : String) : Bool := ((p.node? n).map (·.kind == .catch_)).getD false
-  sortStrs (obs.filterMap (fun o =>
+  dedupObserved <| sortStrs (obs.filterMap (fun o =>
     match words o with
     | "task" :: n :: _ => some s!"req {n}"
     | ["complete", n] => some s!"complete {n}"
@@ -67,7 +75,7 @@ def implCanon (p : Proc) (obs : List String) : List String :=
     | _ => none))
 
 def modelCanon (obs : List CObs) (ret : Option Bool) : List String :=
-  sortStrs (obs.map (fun o =>
+  dedupObserved <| sortStrs (obs.map (fun o =>
     match o with
     | .eng (.req n) => s!"req {n}"
     | .eng (.complete n) => s!"complete {n}"
@@ -88,6 +96,13 @@ def judgeSpec (p : Proc) (x : Extra) (ops : List (List String × List String)) :
   let catches := x.consumers.filter (fun n => ((p.node? n).map (·.kind == .catch_)).getD false)
   let incoming (n : String) : Nat := ((p.node? n).map (·.ins.length)).getD 0
   let evMatches (n kind name : String) : Bool := x.defs.any (fun d => d.1 == n && d.2.2.1 == kind && d.2.2.2 == name)
+  -- catch events behind an event-based gateway: when one of them fires, the others are withdrawn (their tokens end)
+  let siblings (n : String) : List String :=
+    (p.nodes.filter (fun g => g.kind == .ebg && (g.outs.map (flowDst p)).contains n)).flatMap
+      (fun g => (g.outs.map (flowDst p)).filter (· != n))
+  -- per withdrawn catch event: the number of deliveries issued before the first matching one after the withdrawal
+  let mut wedged : List (String × Nat) := []
+  let mut withdrawn : List String := []
   let mut visits : List (String × Nat) := []
   let mut fires : List (String × Nat) := []
   let mut started := false
@@ -110,6 +125,8 @@ def judgeSpec (p : Proc) (x : Extra) (ops : List (List String × List String)) :
             (if issued ≥ facts.start.cap 0 then "deliver_blocks_unstarted_instance" else "deliver_blocks_early")
           else if catches.any (fun n => getN visits n == 0 && issued ≥ facts.catch_.cap (incoming n)) then
             "deliver_blocks_unreached_inbox"
+          else if wedged.any (fun (n, k) => issued ≥ k + facts.catch_.cap (incoming n) + 1) then
+            "deliver_blocks_reader_stuck_on_withdrawn_token"
           else "deliver_blocks_unexplained"
         specs := s!"{sig}: delivery {issued + 1} ({kind} {name}) did not return within the deadline" :: specs
       for n in catches do
@@ -123,6 +140,8 @@ def judgeSpec (p : Proc) (x : Extra) (ops : List (List String × List String)) :
           specs := s!"listener_missed_event: {n} had {w} tokens waiting for {kind} {name}, {k} continued" :: specs
         else if !m && k > 0 && !inflightMatches n then
           specs := s!"nonmatching_listener_reacted: {n} continued on {kind} {name}" :: specs
+      for n in withdrawn do
+        if evMatches n kind name && !(wedged.any (·.1 == n)) then wedged := wedged ++ [(n, issued)]
       if blocked then inflight := inflight ++ [(kind, name)]
       issued := issued + 1
     | _ =>
@@ -133,6 +152,13 @@ def judgeSpec (p : Proc) (x : Extra) (ops : List (List String × List String)) :
     for n in catches do
       visits := addN visits n (visitsNow n)
       fires := addN fires n (firesNow n)
+    -- a catch event behind an event-based gateway fired: its siblings stop listening
+    for n in catches do
+      if firesNow n > 0 then
+        for m in siblings n do
+          if !withdrawn.contains m then
+            withdrawn := withdrawn ++ [m]
+            fires := addN fires m (getN visits m - getN fires m)
   return (specs.reverse, interesting)
 
 def check (_params : List String) (lines : List String) : CaseResult := Id.run do
@@ -171,13 +197,16 @@ def check (_params : List String) (lines : List String) : CaseResult := Id.run d
       (o, pair op more)
   if !(implCanon p obs0).isEmpty then
     r := { r with diffs := s!"observations before the first action: {implCanon p obs0}" :: r.diffs }
-  -- 1. model against implementation, segment by segment
+  -- 1. model against implementation, segment by segment (programs with an event-based gateway are judged by the
+  --    property predicate only: the engine model does not cover that gateway)
+  let modelled := !(p.nodes.any (·.kind == .ebg))
+  if !modelled then r := { r with infos := ["event-based gateway: judged by the property predicate only"] }
   let cfg := C01.faithful
   let mut st : CSt := { eng := { vars := c.vars }, sys := { nodes }, ids := x.consumers }
   let mut k := 0
   let mut stop := false
   for (op, obs) in ops do
-    if stop then break
+    if stop || !modelled then break
     k := k + 1
     let mut ret : Option Bool := none
     match op with
